@@ -202,7 +202,7 @@ func scenarios() []scenario {
 	// every schedule with at most one preemption - a code path taken only from some batch size on (chunked hand-out,
 	// another counter) is invisible to the small configurations above
 	// (the number of schedules with one preemption grows with the square of the batch size: sizes up to 33 here, sizes
-	// up to 260 in the thorough tier; thresholds behind larger sizes are probed by the free-running large-size bodies,
+	// up to 80 in the thorough tier; thresholds behind larger sizes are probed by the free-running large-size bodies,
 	// whose last tasks are slow - see large.go.)
 	for _, k := range []int{7, 8, 9} {
 		l = append(l, mkScenario(1, 1, P(k)), mkScenario(2, 1, P(k)))
@@ -214,7 +214,7 @@ func scenarios() []scenario {
 		for _, k := range []int{15, 16, 17, 31, 33} {
 			l = append(l, mkScenario(2, 1, P(k)))
 		}
-		for _, k := range []int{63, 64, 65, 80, 128, 129, 256, 257, 260} {
+		for _, k := range []int{63, 64, 65, 80} {
 			l = append(l, mkScenario(1, 1, P(k)))
 		}
 	}
